@@ -105,6 +105,24 @@ def family(rng):
     return ['scenario', ['debug', 1], ['start', rng.choice([0, 0, 1])], ['flags', 1], ['locks', 1], ['queues', 1], ['roots'] + roots]
 
 
+def plain_activity(rng):
+    """collect() over a mix of coroutines and plain awaitables (`collect(time + 20, work())`), one of the coroutines failing: the
+    others - the plain ones too - are aborted at that time and the failure is raised (judged only: the machine has no such tasks)"""
+    acts = []
+    n = rng.randint(2, 4)
+    failing = rng.randrange(n)
+    for i in range(n):
+        if i == failing:
+            acts.append(['prog', ['sleep', rng.choice([F(1, 2), 1, 2])], ['raise', 2]])
+        elif rng.random() < 0.6:
+            acts.append(['plain', rng.choice([['delay', rng.choice([5, 20])], ['after', 30], ['flag', 0]])])
+        else:
+            acts.append(['prog', ['sleep', rng.choice([5, 20])], ['log', 100 + i], ['ret', 11 + i]])
+    stmt = ['try', ['body', ['collect'] + acts], ['handler', ['pats', 'concurrent', 'anyException'], ['body', ['log', 90]]]]
+    main = ['prog', ['sleep', rng.choice([0, 1])], stmt, ['log', 50], ['sleep', 40], ['log', 60]]
+    return ['scenario', ['debug', 1], ['start', 0], ['flags', 1], ['locks', 1], ['queues', 1], ['roots', main]]
+
+
 def nontrivial(impl):
     evs = impl['events']
     big = any((':cbegin:' in e or ':fbegin:' in e) and int(e.split(':')[4].split(',')[0]) >= 2 for e in evs)
@@ -113,7 +131,8 @@ def nontrivial(impl):
 
 def run(tier, seed, drv):
     return msuite.standard_run(PID, 'C16', TAGS, tier, seed, drv, [family], nontrivial=nontrivial, rule=RULE,
-                               n_quick=250, n_thorough=6000, optimized=100 if tier == 'quick' else 1000)
+                               n_quick=250, n_thorough=6000, optimized=100 if tier == 'quick' else 1000,
+                               judge_only=[plain_activity], n_judge_only=30 if tier == 'quick' else 1000)
 
 
 def replay(data, drv):
